@@ -394,10 +394,9 @@ func (t *tracker) Has(id []byte, ts int64) (bool, error) {
 	t.lock.Lock()
 	defer t.lock.Unlock()
 
-	if ts >= t.list.ts+t.list.th {
-		return false, nil
-	}
-	if t.locators != nil {
+	// Ancestors may have been built with a larger threshold, so they are
+	// consulted even if the timestamp is beyond the window of this block.
+	if ts < t.list.ts+t.list.th && t.locators != nil {
 		if _, ok := t.locators[string(id)] ; ok {
 			return true, nil
 		}
